@@ -86,9 +86,9 @@ def axioms_audit(theorems, imports):
     out = r.stdout + r.stderr
     res = {}
     # "'name' depends on axioms: [a, b]" or "'name' does not depend on any axioms"
-    for m in re.finditer(r"^'(.+?)' depends on axioms: \[([^\]]*)\]", out, re.S | re.M):
+    for m in re.finditer(r"^'([^\n]+?)' depends on axioms: \[([^\]]*)\]", out, re.M):
         res[m.group(1)] = [a.strip() for a in m.group(2).replace('\n', ' ').split(',') if a.strip()]
-    for m in re.finditer(r"^'(.+?)' does not depend on any axioms", out, re.M):
+    for m in re.finditer(r"^'([^\n]+?)' does not depend on any axioms", out, re.M):
         res[m.group(1)] = []
     missing = [t for t in theorems if t not in res]
     return res, missing, out
